@@ -53,6 +53,9 @@ def seeded_table():
         res = m.get("check_results", {})
         pid = name.split("-")[0]
         verdict, wall, tier = "not run", "", ""
+        if m.get("not_kept"):
+            rows.append("| %s | **%s** | — | ./check %s | not kept: %s | |" % (name, str(m.get("title"))[:160].replace("|", "/"), pid, str(m["not_kept"])[:260].replace("|", "/")))
+            continue
         for k, v in res.items():
             if k.startswith(pid + ":"):
                 tier = k.split(":")[1]
